@@ -224,10 +224,14 @@ func runEnc(prop string, seed uint64, tier, dir string) error {
 			if rng.Intn(30) == 0 {
 				rng.boost = 64 // one list of this message has more than 255 elements
 			}
+			if i < 34 { // and every message kind twice with a long list, whatever the seed
+				g.forceKind = i % 17
+				rng.boost = 64
+			}
 			m, t, k, xid := g.message(depth)
 			rng.boost = 0
 			v, term, kind = m, fmt.Sprintf("(EMsg %d %s)", xid, t), "msg:"+k
-			if prop == "C13" && rng.Intn(4) == 0 {
+			if prop == "C13" && (rng.Intn(4) == 0 || (i >= 17 && i < 34)) {
 				// the same operations on the value obtained by DECODING the message
 				if b, ok := marshalSafe(m); ok && len(b) < 65536 {
 					if d, err := of.Parse(b); err == nil && d != nil {
